@@ -100,7 +100,7 @@ def bset(c, extra=()):
 
 class Stream(object):
     def __init__(self, name, op, c, lens, cuts=None, gran=1, has_out=False, is_len=False,
-                 default=None, joint=None, zero_calls=True):
+                 default=None, joint=None, zero_calls=True, win=None):
         self.name = name            # "a" aad, "m" message, "d" hashed data, "r" XOF output
         self.op = op                # method name, for messages and keys
         self.c = c                  # internal block / cache size the boundary set is built around
@@ -112,6 +112,7 @@ class Stream(object):
         self.default = default if default is not None else c + 1   # length while another stream is swept
         self.joint = sorted(set(joint if joint is not None else lens))
         self.zero_calls = zero_calls  # "no call at all" is equivalent to one call with b""
+        self.win = list(win) if win is not None else [c]   # boundaries straddled by the all-compositions window
 
 
 # --------------------------------------------------------------------------
@@ -297,18 +298,18 @@ class BlockModeTarget(Target):
             blocks = [0, 1, 2, 3, 7, 8, 9] + ([16, 17] if big else [])
             lens = [b * bs for b in blocks]
             st = Stream("m", "encrypt/decrypt", bs, lens, lens, gran=bs, has_out=True,
-                        joint=lens)
+                        joint=lens, win=[8 * bs])
         elif mode == "CFB":
             s = seg // 8
             lens = set(bset(s)) | set(bset(bs))
-            st = Stream("m", "encrypt/decrypt", s, lens, has_out=True)
+            st = Stream("m", "encrypt/decrypt", s, lens, has_out=True, win=sorted({s, bs}))
         elif mode == "OFB":
             st = Stream("m", "encrypt/decrypt", bs, bset(bs, (8 * bs - 1, 8 * bs, 8 * bs + 1) if big else ()),
                         has_out=True)
         elif mode == "CTR":
             ks = 8 * bs                      # raw_ctr.c keeps a keystream of 8 blocks
             ext = [ks - 1, ks, ks + 1] + ([2 * ks - 1, 2 * ks, 2 * ks + 1] if big else [])
-            st = Stream("m", "encrypt/decrypt", bs, bset(bs, ext), has_out=True)
+            st = Stream("m", "encrypt/decrypt", bs, bset(bs, ext), has_out=True, win=[bs, ks])
         elif mode == "OPENPGP":
             st = Stream("m", "encrypt/decrypt", bs, bset(bs), has_out=False, zero_calls=False)
         else:
@@ -454,7 +455,8 @@ class AeadTarget(Target):
         self.streams = [
             Stream("a", "update", ca, bset(ca), default=5, joint=bset(ca) if thorough else small),
             Stream("m", "encrypt/decrypt", cm, bset(cm, ext_m), has_out=has_out, default=cm + 1,
-                   joint=bset(cm) if thorough else [0, 1, cm - 1, cm, cm + 1, 2 * cm + 1]),
+                   joint=bset(cm) if thorough else [0, 1, cm - 1, cm, cm + 1, 2 * cm + 1],
+                   win=[16, 64] if mode == "CHAPOLY" else [cm]),
         ]
 
     def _new(self, inputs):
@@ -687,7 +689,7 @@ class XofTarget(Target):
             if thorough:
                 pts |= {3 * 8192 - suffix, 3 * 8192 + 1, 8192 + 168}
             d = Stream("d", "update", 8192, pts, pts, default=8193,
-                       joint=[0, 1, edge, edge + 1, 8192, 8193, 16385])
+                       joint=[0, 1, edge, edge + 1, 8192, 8193, 16385], win=sorted({edge, 8192, 8192 + edge}))
             r = Stream("r", "read", rate, bset(rate, rext), is_len=True, default=33,
                        joint=[0, 1, rate - 1, rate, rate + 1])
         else:
